@@ -16,8 +16,18 @@
   own continuation from there.  Only `theorem`s and their satisfiability `example`s here; lemmas are in Proofs/.
 -/
 import BioCantor.Proofs.LoopTies
+set_option autoImplicit false
 namespace BioCantor.Props.C01Ties2
 open BioCantor BioCantor.GenP BioCantor.Proofs BioCantor.Proofs.Ties BioCantor.Proofs.LoopTies
+open BioCantor.Model.LoopGlue (siBlk finishRel finishOpt)
+
+/-- L0: the C01 model driver (ops gp2r / gr2p / grelint, executed against the real library on every run) hands
+    locations to the generated kernels and reads their answers back through `Model/LoopGlue.lean`; that view is the
+    `toCI` / `si` / `siLoc` / `mapExc` view of the theorems in this file and in C01Ties. -/
+theorem driver_view (l : Loc) (b : Blk) (st : Strand) (s : SI) (e : PyExc) :
+    Model.LoopGlue.toCI l = toCI l ∧ Model.LoopGlue.toSI b st = si b st
+      ∧ Model.LoopGlue.siLocation s = siLoc s ∧ Model.LoopGlue.excErr e = mapExc e := by
+  exact ⟨LoopTies.glue_toCI l, LoopTies.glue_toSI b st, LoopTies.glue_siLocation s, LoopTies.glue_excErr e⟩
 
 /-- L1: `CompoundInterval.scan_blocks` — the generated generator (assert_directional, then `yield from self.blocks`
     / `reversed(self.blocks)`) returns the model's 5'→3' block list; InvalidStrandException ↦ InvalidStrand. -/
@@ -82,6 +92,63 @@ theorem compound_has_overlap_tie (l : Loc) (hl : WF (.compound l)) (b : Blk) (hb
       (Model.hasOverlap (.compound l) (.single b sb) false false) := by
   exact LoopTies.has_overlap_tie l hl.2.1 b hb sb
 
+/-- L7: `CompoundInterval._combine_blocks(preserve_overlappers)` — the generated loop with its running
+    `curr_start/curr_end`, `new_starts/new_ends`, `needs_combining` (empty blocks dropped, `curr_end == next_start`
+    resp. `curr_end >= next_start`, `new_ends[-1] = max(…)`), continued by the model's `finishOpt`
+    (`self` / `EmptyLocation()` / the `CompoundInterval(new_starts, new_ends, self.strand, …)` constructor call,
+    then `_to_single_interval_if_one_block`), IS `Model.optimizeLoc preserve`. -/
+theorem compound_combine_blocks_tie (l : Loc) (hl : WF (.compound l)) (preserve : Bool) :
+    AgreeK (finishOpt l) (Gen.CompoundInterval_combine_blocks (toCI l) preserve) (Model.optimizeLoc preserve l) := by
+  exact LoopTies.combine_tie l hl.2.1 preserve
+
+/-- L7b: on a constructor-accepted location the generated `_combine_blocks` never raises: neither the TypeError of
+    `None >= int` / `max(None, int)` nor the IndexError of `new_ends[-1] = …` on an empty list is reachable. -/
+theorem compound_combine_blocks_total (l : Loc) (hl : WF (.compound l)) (preserve : Bool) :
+    ∃ o, Gen.CompoundInterval_combine_blocks (toCI l) preserve = .ok o := by
+  exact LoopTies.combine_never_raises l hl.2.1 preserve
+
+/-- L8: `CompoundInterval.optimize_blocks` (generated up to `combined = self._combine_blocks(preserve_overlappers=True)`)
+    continued by `finishOpt` IS `Model.optimizeBlocks`. -/
+theorem compound_optimize_blocks_tie (l : Loc) (hl : WF (.compound l)) :
+    AgreeK (finishOpt l) (Gen.CompoundInterval_optimize_blocks (toCI l)) (Model.optimizeBlocks (.compound l)) := by
+  exact LoopTies.optimize_blocks_tie l hl.2.1
+
+/-- L9: `CompoundInterval.optimize_and_combine_blocks` (generated up to
+    `combined = self._combine_blocks(preserve_overlappers=False)`) continued by `finishOpt` IS
+    `Model.optimizeAndCombine`. -/
+theorem compound_optimize_and_combine_blocks_tie (l : Loc) (hl : WF (.compound l)) :
+    AgreeK (finishOpt l) (Gen.CompoundInterval_optimize_and_combine_blocks (toCI l))
+      (Model.optimizeAndCombine (.compound l)) := by
+  exact LoopTies.optimize_and_combine_blocks_tie l hl.2.1
+
+/-- L8c/L9c: the statements of both methods after the cut read as `finishOpt` mirrors them (pinned as text). -/
+theorem compound_optimize_tails_pinned :
+    Gen.CompoundInterval_optimize_blocks_tail
+      = ["if not combined.is_empty:\n    return combined._to_single_interval_if_one_block()\nelse:\n    return combined".toList]
+    ∧ Gen.CompoundInterval_optimize_and_combine_blocks_tail = Gen.CompoundInterval_optimize_blocks_tail := by
+  decide
+
+/-- L10: `CompoundInterval.gap_list` — the pairwise loop (`block1 = next(block_iter)`, `for block2 in block_iter`,
+    `gaps.append(SingleInterval(min(ends), max(starts), self.strand, …))`, `block1 = block2`), generated from the
+    statement after `block_iter = optimized.scan_blocks()` on (HEAD CUT: the non-empty scanned block list `b :: rest`
+    is an argument), returns exactly the model's `Model.gapPairs` (Model/Algebra.lean, `gapList`), every gap on
+    `self.strand`, and raises InvalidPositionException exactly when the model's validity test of the gaps fails. -/
+theorem compound_gap_list_tie (l : Loc) (st' : Strand) (b : Blk) (rest : List Blk) :
+    Gen.CompoundInterval_gap_list (toCI l) (si b st', rest.map (fun x => si x st'))
+      = if (Model.gapPairs (b :: rest)).all (fun g => decide (g.1 ≤ g.2)) = true
+        then .ok ((Model.gapPairs (b :: rest)).map (fun g => si g l.strand))
+        else .error .InvalidPositionException := by
+  exact LoopTies.gap_list_tie l st' b rest
+
+/-- L10c: the skipped head of `gap_list` reads as `Model.gapList` mirrors it (optimize_and_combine_blocks, the
+    is_empty early return, scan_blocks of the optimized location); pinned as text. -/
+theorem compound_gap_list_head_pinned :
+    Gen.CompoundInterval_gap_list_head
+      = ["optimized = self.optimize_and_combine_blocks()".toList,
+         "if optimized.is_empty:\n    return []".toList,
+         "block_iter = optimized.scan_blocks()".toList] := by
+  decide
+
 /-! ### The hypotheses are satisfiable (three blocks, one of them empty; minus strand) -/
 
 def exLoc : Loc := ⟨[(2, 5), (7, 7), (8, 12)], .minus⟩
@@ -121,5 +188,28 @@ example : Gen.CompoundInterval_is_overlapping (toCI exLoc) = .ok false := by dec
 example : Gen.CompoundInterval_is_overlapping (toCI exOv) = .ok true := by decide
 example : Gen.CompoundInterval_has_overlap (toCI exLoc) (si (5, 8) .plus) = .ok false := by decide
 example : Gen.CompoundInterval_has_overlap (toCI exLoc) (si (5, 9) .plus) = .ok true := by decide
+
+/-  c3 = CompoundInterval([2,5,5,10],[5,5,9,12],PLUS); c4 = CompoundInterval([3,7],[3,7],MINUS):
+    c2._combine_blocks(True) is c2; c2._combine_blocks(False) = <2-9:+, 10-12:+>; c3._combine_blocks(True) = <2-9:+, 10-12:+>;
+    c4._combine_blocks(True) = c4._combine_blocks(False) = EmptyLocation -/
+def exAdj : Loc := ⟨[(2, 5), (5, 5), (5, 9), (10, 12)], .plus⟩
+def exEmpty : Loc := ⟨[(3, 3), (7, 7)], .minus⟩
+example : WF (.compound exAdj) ∧ WF (.compound exEmpty) := by decide
+example : Gen.CompoundInterval_combine_blocks (toCI exOv) true = .ok .same := by decide
+example : Gen.CompoundInterval_combine_blocks (toCI exOv) false = .ok (.rebuilt [2, 10] [9, 12]) := by decide
+example : Gen.CompoundInterval_combine_blocks (toCI exAdj) true = .ok (.rebuilt [2, 10] [9, 12]) := by decide
+example : Gen.CompoundInterval_optimize_blocks (toCI exAdj) = .ok (.rebuilt [2, 10] [9, 12]) := by decide
+example : Gen.CompoundInterval_optimize_and_combine_blocks (toCI exOv) = .ok (.rebuilt [2, 10] [9, 12]) := by decide
+example : Gen.CompoundInterval_optimize_blocks (toCI exOv) = .ok .same := by decide
+example : Gen.CompoundInterval_combine_blocks (toCI exEmpty) true = .ok .empty
+    ∧ Gen.CompoundInterval_combine_blocks (toCI exEmpty) false = .ok .empty := by decide
+
+/-  c1.gap_list() = [5-8:-] (scan order of the optimized location: 8-12, 2-5); c2.gap_list() = [9-10:+] -/
+example : Gen.CompoundInterval_gap_list (toCI exLoc) (si (8, 12) .minus, [si (2, 5) .minus]) = .ok [⟨5, 8, .minus⟩] := by
+  decide
+example : Gen.CompoundInterval_gap_list (toCI exOv) (si (2, 9) .plus, [si (10, 12) .plus]) = .ok [⟨9, 10, .plus⟩] := by
+  decide
+example : Gen.CompoundInterval_gap_list (toCI exOv) (si (2, 9) .plus, [si (4, 6) .plus])
+    = .error .InvalidPositionException := by decide
 
 end BioCantor.Props.C01Ties2
